@@ -66,6 +66,12 @@ def gen_cases(run, rng):
         else:
             rel = [[int(i == j or rng.random() < 0.1) for j in range(m)] for i in range(n)]
         cases.append((n, m, rel))
+    # a few long sequences: reversed / shuffled permutations (edit distance far beyond any small constant)
+    for n in ([40, 70] if run.tier == "quick" else [40, 70, 90, 120]):
+        for kind in ("reversed", "shuffled", "rotated"):
+            a = list(range(n))
+            b = list(reversed(a)) if kind == "reversed" else (a[n // 3:] + a[:n // 3] if kind == "rotated" else rng.sample(a, n))
+            cases.append((n, n, [[int(x == y) for y in b] for x in a]))
     return cases, nexh
 
 
